@@ -162,8 +162,17 @@ def canonical(rec, closure_names=None):
     return {"args": rec.get("arg_count", 0), "tys": tys, "blocks": out, "promoted": prom, "ret": rec.get("ret")}
 
 
-def _h(obj):
-    return hashlib.sha256(json.dumps(obj, sort_keys=True, separators=(",", ":")).encode()).hexdigest()[:20]
+_SPAN_CLOSURE = re.compile(r"\{(closure|coroutine|async (?:block|fn body|closure)[^@}]*)@[^}]*\}")
+
+
+def _h(obj, names=None):
+    txt = json.dumps(obj, sort_keys=True, separators=(",", ":"), ensure_ascii=False)
+    # a closure type spelt by source position is named by the fingerprint of that closure's body (when known: inner
+    # closures are fingerprinted first); a position that cannot be resolved stays as it is, so two trees agree on it
+    # only if the positions agree
+    if names:
+        txt = _SPAN_CLOSURE.sub(lambda m: names.get(m.group(0), m.group(0)), txt)
+    return hashlib.sha256(txt.encode()).hexdigest()[:20]
 
 
 def fingerprints(omir_path):
@@ -176,14 +185,24 @@ def fingerprints(omir_path):
                 recs[r["def"]] = r
     depth = lambda n: n.count("::{closure#")
     names = {}
-    fp = {}
+    own = {}
     for n in sorted(recs, key=lambda n: -depth(n)):
         c = canonical(recs[n], names)
-        h = _h(c)
+        h = _h(c, names)
+        own[n] = h
         if depth(n):
             names[n] = "<closure %s>" % h
-        else:
-            fp[n] = h
+            if recs[n].get("tyname"):
+                names[recs[n]["tyname"]] = "<closure %s>" % h      # the span spelling of the same closure type
+    # A function's fingerprint covers the bodies of all closures nested in it, whether or not the function's own MIR
+    # names them: a closure that captures nothing is a zero-sized constant whose type is spelt by source span
+    # (`{closure@file:l:c}`), not by `{closure#N}`, so it does not show up through the renaming above.
+    fp = {}
+    for n in recs:
+        if depth(n):
+            continue
+        inner = sorted(own[m] for m in recs if m.startswith(n + "::{closure#"))
+        fp[n] = _h([own[n], inner], names)
     return fp
 
 
